@@ -2788,6 +2788,33 @@ void mmd_d_string_update_metavalue_for_key(DString * source, const char * key, c
 }
 
 
+/// If the metadata block is closed by a YAML fence ("---"), return the offset
+/// at which that fence starts, otherwise return meta_end
+static size_t metadata_closing_fence(mmd_engine * e, size_t meta_end) {
+	size_t line = meta_end;
+
+	if ((line > 0) && (e->dstr->str[line - 1] == '\n')) {
+		line--;
+	}
+
+	if ((line > 0) && (e->dstr->str[line - 1] == '\r')) {
+		line--;
+	}
+
+	size_t fence = line;
+
+	while ((fence > 0) && (e->dstr->str[fence - 1] == '-')) {
+		fence--;
+	}
+
+	if ((line - fence >= 3) && (fence > 0) && (e->dstr->str[fence - 1] == '\n')) {
+		return fence;
+	}
+
+	return meta_end;
+}
+
+
 /// Insert/replace metadata value in mmd_engine
 void mmd_engine_update_metavalue_for_key(mmd_engine * e, const char * key, const char * value) {
 	bool has_meta = true;
@@ -2851,8 +2878,8 @@ void mmd_engine_update_metavalue_for_key(mmd_engine * e, const char * key, const
 		start = begin - e->dstr->str;
 
 		if (end == -1) {
-			// Replace until the end of the metadata (last key)
-			len = meta_end - start;
+			// Replace until the end of the metadata (last key), but keep a closing YAML fence
+			len = metadata_closing_fence(e, meta_end) - start;
 		} else {
 			len = end - start;
 		}
@@ -2867,23 +2894,9 @@ void mmd_engine_update_metavalue_for_key(mmd_engine * e, const char * key, const
 		// We're appending metadata at the end
 
 		// If the block is closed by a YAML fence ("---"), stay inside it
-		size_t line = meta_end;
+		size_t fence = metadata_closing_fence(e, meta_end);
 
-		if ((line > 0) && (e->dstr->str[line - 1] == '\n')) {
-			line--;
-		}
-
-		if ((line > 0) && (e->dstr->str[line - 1] == '\r')) {
-			line--;
-		}
-
-		size_t fence = line;
-
-		while ((fence > 0) && (e->dstr->str[fence - 1] == '-')) {
-			fence--;
-		}
-
-		if ((line - fence >= 3) && (fence > 0) && (e->dstr->str[fence - 1] == '\n')) {
+		if (fence != meta_end) {
 			// Insert before the closing fence
 			meta_end = fence;
 		} else if (e->dstr->str[meta_end - 1] != '\n') {
